@@ -21,3 +21,4 @@ Definition k_flow_ncrypt_protect_secret : pfun :=
     ] [];
     SReturn (PCall "_encrypt_blob" [(PName "data"); (PName "rk"); (PName "descriptor")])
   ] |}.
+Definition k_flow_ncrypt_protect_secret_defaults : list (string * pexp) := [("root_key_identifier", PNone); ("server", PNone); ("domain_name", PNone); ("username", PNone); ("password", PNone); ("auth_protocol", (PStr [110; 101; 103; 111; 116; 105; 97; 116; 101])); ("cache", PNone)].
